@@ -73,7 +73,7 @@ def connected (isClient : Bool) (k : Keys) : Ep :=
     else [⟨dtlsCtChangeCipherSpec, 0, 4, false, [1]⟩, ⟨dtlsCtHandshake, 1, 0, true, []⟩]
   { isClient, conn := .connected, connKeys := some k, connSrtp := none, alive := true,
     writeEpoch := 1, writeSeq := 1,
-    ctx := { seqNum := 1, epoch := 1, readEpoch := 1,
+    ctx := { seqNum := 1, epoch := 1,
              msgSeq := if isClient then 3 else 4,
              recvSeq := if isClient then 5 else 3,
              lastFlight := some fl, localSecret := false,
